@@ -9,6 +9,7 @@ import (
 	sentinel "github.com/alibaba/sentinel-golang/api"
 	"github.com/alibaba/sentinel-golang/core/base"
 	cb "github.com/alibaba/sentinel-golang/core/circuitbreaker"
+	"github.com/alibaba/sentinel-golang/core/flow"
 	"pgregory.net/rapid"
 
 	"verif/harness/hx"
@@ -30,7 +31,9 @@ func (l *listener) OnTransformToHalfOpen(prev cb.State, rule cb.Rule) {
 	l.log = append(l.log, model.Transition{From: int(prev), To: model.HalfOpen, Rule: rule.Id})
 }
 
-func DrawRule(t *rapid.T, id, res string) (*cb.Rule, model.BreakerRule) { return DrawRuleLike(t, id, res, nil) }
+func DrawRule(t *rapid.T, id, res string) (*cb.Rule, model.BreakerRule) {
+	return DrawRuleLike(t, id, res, nil)
+}
 
 // DrawRuleLike: with like != nil the rule has like's strategy and statistic geometry (interval, bucket count), so that the
 // loader considers the two statistics interchangeable; everything else is drawn.
@@ -139,6 +142,17 @@ func TestBreakerMachine(t *testing.T) {
 		} else if _, err := cb.LoadRules(rules); err != nil {
 			t.Fatalf("LoadRules: %v", err)
 		}
+		queued := false
+		if rapid.IntRange(0, 3).Draw(t, "pacingFlowRule") == 0 {
+			// another module on the same resource: a pacing rule that queues requests (never rejects: the limit is an hour)
+			if _, err := flow.LoadRules([]*flow.Rule{{Resource: "res", ControlBehavior: flow.Throttling, Threshold: float64(rapid.SampledFrom([]int{1, 2, 5, 10, 100}).Draw(t, "paceT")), MaxQueueingTimeMs: 3600000}}); err != nil {
+				t.Fatalf("flow rule: %v", err)
+			}
+			hx.C.Advance = true
+			defer func() { hx.C.Advance = false }()
+			c.Class("pacing-flow-rule-on-the-resource")
+		}
+		defer func() { c.ClassIf(queued, "request-queued-before-the-breakers-were-consulted") }()
 		if got := len(cb.GetRulesOfResource("res")); got != nb {
 			t.Fatalf("%d valid rules, module reports %d", nb, got)
 		}
@@ -233,6 +247,14 @@ func TestBreakerMachine(t *testing.T) {
 				for k, m := range ms {
 					states[k] = m.State
 				}
+				// (a pacing flow rule on the resource may make the single caller sleep inside Entry, before the breakers are
+				// consulted: they see the instant the wait is over, the request's response time runs from the Entry call)
+				e, blk := sentinel.Entry("res")
+				called := now
+				now = hx.C.Ms()
+				if now != called {
+					queued = true
+				}
 				for _, m := range ms {
 					pass, tr := m.TryPass(now)
 					if tr {
@@ -249,10 +271,9 @@ func TestBreakerMachine(t *testing.T) {
 						rollback = true
 					}
 				}
-				e, blk := sentinel.Entry("res")
-				c.Op("t=%d Entry -> blocked=%v (model: %q)", now, blk != nil, exp)
+				c.Op("t=%d Entry (waited %d ms) -> blocked=%v (model: %q)", called, now-called, blk != nil, exp)
 				if e != nil {
-					lives = append(lives, &lv{next, e, now, states})
+					lives = append(lives, &lv{next, e, called, states})
 					next++
 				}
 				if (exp != "") != (blk != nil) {
